@@ -106,11 +106,8 @@ class C09(Prop):
                 # a literal with escapes / control characters inside a marker
                 yield R.case_rt(f"os_name == {_lit_token(rng)}" + (" and extra == 'A_b'" if rng.random() < 0.3 else ""))
             else:
-                pos = rng.randrange(len(s) + 1)
-                if rng.random() < 0.7:       # bias to token starts
-                    starts = [i for i in range(len(s) + 1) if i == 0 or i == len(s) or s[i - 1] in " \t()'\"=<>~!" or s[i] in " \t()'\"=<>~!\n"]
-                    pos = rng.choice(starts)
-                yield ("mk.match", [rng.choice(RULES), core.enc(s), str(pos)])
+                rule, pos = G.tokenizer_probe(rng, s)
+                yield ("mk.match", [rule, core.enc(s), str(pos)])
 
     def complete(self, op, args):
         if op == "mk.rt":
